@@ -62,6 +62,16 @@ CHECKS = {
             "step, binds the critical value to the observed one and requires it inside the exact-Beta bracket of the documented quantile.",
             TRUST + "_critical_dist/_test_dist are optional private reads; the bracket is an independent 1500-pair bootstrap.",
             "TLA+ spec + TLC model checking + TLC trace validation with bracketed stochastic threshold", "5/C09"),
+    "C10": ("NNSP.tla: sorted distinct union, exact membership vectors, validity of ANY k-nearest relation incl. self, the NNPS distance "
+            "(exact rational form and Num form); NNDVI.tla: distance to the reference, permutation threshold as a bracketed environment value, "
+            "drift rule, reference replaced on drift / kept otherwise. TLC: all pairs of samples of sizes 1..2/3 on a 2x2 lattice, k 1..3 and EVERY "
+            "valid neighbour relation of their union: membership exact, distance symmetric, in [0,1], 0 for equal sets. Conformance: every pair of "
+            "small samples and random pairs of unequal sizes with duplicates on the real NNSpacePartitioner (D, v1, v2, adjacency validity, distance, "
+            "swap, self) and NNDVI histories (unequal batch sizes, set_reference / reset mid-history): TLC recomputes membership and distance, binds "
+            "the threshold to the value returned by the wrapped static helper, requires it inside an independent 6-sigma bracket, checks the "
+            "decision, counters and the retained reference_batch after every call.",
+            TRUST + "sklearn's choice among equidistant neighbours is unspecified (validity is checked instead); integer lattice points.",
+            "TLA+ spec + TLC model checking + TLC trace validation with bracketed stochastic threshold", "5/C10"),
     "C12": ("TLC explores Ensemble.tla (members as abstract lifecycle machines, four elections from Election.tla, own counters, reset fan-out) "
             "for 1-3 members, all vote schedules to depth 5/7: verdict = rule(member states), counters count updates, reset reaches everyone. "
             "Conformance: real StreamingEnsemble/BatchEnsemble with mixed members (DDM, EDDM, STEPD, ADWIN, PageHinkley, CUSUM, KdqTreeStreaming; "
